@@ -313,7 +313,7 @@ func (s *Safety) validRef(w *World, i int, b *types.Block, h uint64) string {
 	if !hd.LastBlockID.Equal(parent) {
 		return "parent-id"
 	}
-	if hd.AppHash != o.appHash[h-1] {
+	if w.Cfg.Full == nil && hd.AppHash != o.appHash[h-1] { // the simulated application's hash chain
 		return "app-hash"
 	}
 	if hd.ValidatorsHash != vs.cur.Hash() {
